@@ -157,7 +157,8 @@ def exec_watch_case(case: dict) -> dict:
             i = snap["i"]
             if i + 1 >= len(wps):
                 break
-            a = {"state": wps[i + 1]["state"], "disk": disk_ev(wps[i + 1]["disk"]), "rc": int(wps[i + 1]["rc"])}
+            a = {"state": wps[i + 1]["state"], "disk": disk_ev(wps[i + 1]["disk"]), "rc": int(wps[i + 1]["rc"]),
+                 "dup": run.get("dups", [])}
             w = World.__new__(World)
             w.root = PPath(snap["dir"])
             w.clock = world.clock + 5000 + i
